@@ -720,6 +720,13 @@ pub fn unspecified(d: &Desc) -> Option<String> {
                 | FieldKind::ElementSize { width: 0, .. }
                 | FieldKind::FixedScalar { width: 0, .. } => return Some("zero-width field".into()),
                 FieldKind::Array { elem: Elem::Width(0), .. } => return Some("zero-width element".into()),
+                // "+k" alters the octet size announced by the size field; with no size field
+                // (or a count field) the reference gives it no meaning
+                FieldKind::Array { id, shape: Shape::Modifier(_), .. } => {
+                    if !decl.fields().iter().any(|g| matches!(&g.kind, FieldKind::Size { field_id, .. } if field_id == id)) {
+                        return Some("array size modifier without a size field".into());
+                    }
+                }
                 _ => {}
             }
         }
